@@ -75,6 +75,12 @@ impl Enc {
         self.l16(d.len());
         self.p.extend_from_slice(d);
     }
+    /// ASCII string argument with exactly these bytes (no terminator added)
+    fn ascii_bytes(&mut self, d: &[u8]) {
+        self.ti(0x200);
+        self.l16(d.len());
+        self.p.extend_from_slice(d);
+    }
 }
 
 fn msg(ecu: &[u8; 4], be: bool, ext: Option<(u8, u8, &[u8; 4], &[u8; 4])>, payload: Vec<u8>) -> DltMessage {
@@ -170,16 +176,22 @@ pub fn build(items: &[PItem]) -> Vec<(DltMessage, bool)> {
             }
             PItem::Flda { serial, nr, len, width, signed, be, near_miss, src } => {
                 let mut e = Enc::new(*be);
-                e.ascii("FLDA");
+                match near_miss % 8 {
+                    4 => e.raw(b"FLDA\0"),         // (raw bytes, no string)
+                    5 => e.ascii_bytes(b"FLDAX"), // (another word of five bytes)
+                    _ => e.ascii("FLDA"),
+                }
                 e.int(*serial as u64 % 3, *width, false);
                 e.int(U64H[*nr as usize % U64H.len()], width / 4, *signed);
                 let l = [0usize, 1, 2, 16, 255, 1000][*len as usize % 6];
                 e.raw(&vec![0x22u8; l]);
-                match near_miss % 4 {
-                    0 => e.ascii("FLDA"),
+                match near_miss % 8 {
                     1 => e.ascii("done"),
                     2 => e.ascii("FLDA sent"),
-                    _ => e.utf8("FLDA"), // (string coding differs)
+                    3 => e.utf8("FLDA"), // (string coding differs)
+                    4 | 6 => e.raw(b"FLDA\0"),
+                    5 | 7 => e.ascii_bytes(b"FLDAY"),
+                    _ => e.ascii("FLDA"),
                 }
                 // only a real data package (first and last argument "FLDA") may be dropped by the plugin
                 // (sent by the usual SYS/FILE, by another context of that application, by the same context id of another application ...)
@@ -189,7 +201,7 @@ pub fn build(items: &[PItem]) -> Vec<(DltMessage, bool)> {
                     7 => (b"NAV\0", b"MAP\0"),
                     _ => (b"SYS\0", b"FILE"),
                 };
-                out.push((msg(b"ECU1", *be, Some((0x41, e.n, apid, ctid)), e.p), near_miss % 4 == 0));
+                out.push((msg(b"ECU1", *be, Some((0x41, e.n, apid, ctid)), e.p), near_miss % 8 == 0));
             }
             PItem::Flfi { serial, width, be } => {
                 let mut e = Enc::new(*be);
@@ -240,7 +252,7 @@ pub fn pitem() -> impl Strategy<Value = PItem> {
         3 => (any::<u8>(), any::<u8>(), any::<u8>(), prop_oneof![Just(0u8), Just(1), Just(2), Just(0x80), Just(0x81), any::<u8>()], any::<u8>(), body()).prop_map(|(inst, svc, lenf, mtype, rc, body)| PItem::SomeIp { inst, svc, lenf, mtype, rc, body }),
         4 => (any::<u8>(), any::<u8>(), any::<bool>(), body(), prop::bool::weighted(0.2)).prop_map(|(id, ecu, ext, body, be)| PItem::NonVerbose { id, ecu, ext, body, be }),
         3 => (0u8..3, any::<u8>(), any::<u8>(), any::<u8>(), any::<u8>(), any::<u8>(), prop::bool::weighted(0.2)).prop_map(|(serial, name, size, pkgs, buf, width, be)| PItem::Flst { serial, name, size, pkgs, buf, width, be }),
-        4 => (0u8..3, any::<u8>(), any::<u8>(), any::<u8>(), prop::bool::weighted(0.3), prop::bool::weighted(0.2), (prop_oneof![3 => Just(0u8), 1 => 1u8..4], prop_oneof![3 => Just(0u8), 2 => 5u8..8])).prop_map(|(serial, nr, len, width, signed, be, (near_miss, src))| PItem::Flda { serial, nr, len, width, signed, be, near_miss, src }),
+        4 => (0u8..3, any::<u8>(), any::<u8>(), any::<u8>(), prop::bool::weighted(0.3), prop::bool::weighted(0.2), (prop_oneof![3 => Just(0u8), 2 => 1u8..8], prop_oneof![3 => Just(0u8), 2 => 5u8..8])).prop_map(|(serial, nr, len, width, signed, be, (near_miss, src))| PItem::Flda { serial, nr, len, width, signed, be, near_miss, src }),
         2 => (0u8..3, any::<u8>(), prop::bool::weighted(0.2)).prop_map(|(serial, width, be)| PItem::Flfi { serial, width, be }),
         2 => (any::<u8>(), any::<u8>()).prop_map(|(frame, len)| PItem::Can { frame, len }),
         2 => (any::<u8>(), any::<u8>()).prop_map(|(nargs, odd)| PItem::Muniic { nargs, odd }),
